@@ -21,7 +21,8 @@ func c15Directed(e func(string)) {
 			// Close parked between flag and close(ch); a Post in between is dropped by the flag
 			e(h + "C=close@" + comp + ".close.afterFlag ; A=post:1 ; C> ; A=post:2")
 			// sender past the check while Close is between flag and close(ch)
-			e(h + "A=post:1@" + chk + " ; C=close@" + comp + ".close.afterFlag ; A>! ; C> ; A>")
+			// (the channel is still open: the send goes through — no `!`, the step waits the long timeout)
+			e(h + "A=post:1@" + chk + " ; C=close@" + comp + ".close.afterFlag ; A> ; C> ; A>")
 			// after the close returned
 			e(h + "A=post:1 ; C=close ; A=post:2 ; B=post:3")
 			// senders already blocked in the send when Close closes the channel (consumer busy in a callback)
@@ -42,9 +43,18 @@ func c15Directed(e func(string)) {
 			e(h + "A=" + op[0] + "@" + op[1] + " ; C=close@bcq.close.afterFlag ; A>! ; C> ; A>")
 			e(h + "A=" + op[0] + "@" + op[1] + " ; C=close@bcq.close.afterLoadCh ; A>! ; C> ; A>")
 			// parked inside notifyWorkers (read lock held, before the send): Close has to wait
-			e(h + "A=" + op[0] + "@bcq.notify.beforeSend ; C=close@bcq.close.afterFlag! ; A>! ; C> ; A>")
+			// (`!` only where the released consumer is expected to block: Take; Poll answers empty and
+			// TakeWithTimeout its timeout — those wait the long timeout so that a loaded machine cannot turn
+			// a slow answer into `A!`)
+			rel := " ; A>"
+			if op[0] == "take" {
+				rel = " ; A>!"
+			}
+			e(h + "A=" + op[0] + "@bcq.notify.beforeSend ; C=close@bcq.close.afterFlag!" + rel + " ; C> ; A>")
 		}
 		e(h + "A=getch@bcq.notify.beforeSend ; C=close! ; A> ; C> ; A=getch")
+		// two readers inside notifyWorkers: Close has to wait for both
+		e(h + "A=take@bcq.notify.beforeSend ; B=getch@bcq.notify.beforeSend ; C=close! ; A>! ; C>! ; B> ; C> ; A>")
 		e(h + "C=close@bcq.close.afterFlag ; A=getch! ; B=count ; D=offer:5! ; C> ; A> ; D>")
 		e(h + "C=close@bcq.close.afterLoadCh ; A=getch! ; B=take ; D=put:5! ; C> ; A> ; D>")
 		// consumers blocked in the receive when Close closes the channel
@@ -54,17 +64,30 @@ func c15Directed(e func(string)) {
 		// after the close returned
 		e(h + "A=offer:1 ; C=close ; A=take ; A=poll ; A=twt ; A=offer:2 ; A=put:3 ; A=count ; A=getch ; A=isclosed")
 	}
-	// loader windows (c=1: the second item goes to the pool and wakes the loader)
-	e("bcq c=1 b=3: I+bcq.loader.afterClosedCheck ; A=offer:1 ; A=offer:2 ; I?bcq.loader.afterClosedCheck ; C=close ; I>bcq.loader.afterClosedCheck ; A=take")
-	e("bcq c=1 b=3: I+bcq.loader.polled ; A=offer:1 ; A=offer:2 ; I?bcq.loader.polled ; C=close! ; I>bcq.loader.polled ; C> ; A=poll")
-	e("bcq c=1 b=3: I+bcq.loader.polled ; A=offer:1 ; A=offer:2 ; I?bcq.loader.polled ; B=take! ; C=close! ; I>bcq.loader.polled ; C> ; A=take")
-	e("bcq c=0 b=3: I+bcq.loader.afterClosedCheck ; A=offer:1 ; I?bcq.loader.afterClosedCheck ; B=take! ; C=close ; I>bcq.loader.afterClosedCheck ; B>")
+	// loader windows (c=1: the second item goes to the pool and wakes the loader); afterwards calls that need the
+	// queue's lock (Offer/Put: write lock, GetChannel: read lock) — the loader must not leave with the lock held
+	e("bcq c=1 b=3: I+bcq.loader.afterClosedCheck ; A=offer:1 ; A=offer:2 ; I?bcq.loader.afterClosedCheck ; C=close ; I>bcq.loader.afterClosedCheck ; A=take ; A=offer:9 ; A=getch")
+	e("bcq c=1 b=3: I+bcq.loader.polled ; A=offer:1 ; A=offer:2 ; I?bcq.loader.polled ; C=close! ; I>bcq.loader.polled ; C> ; A=poll ; A=offer:9 ; A=getch")
+	e("bcq c=1 b=3: I+bcq.loader.polled ; A=offer:1 ; A=offer:2 ; I?bcq.loader.polled ; B=take! ; C=close! ; I>bcq.loader.polled ; C> ; A=take ; A=put:9 ; A=getch")
+	e("bcq c=0 b=3: I+bcq.loader.afterClosedCheck ; A=offer:1 ; I?bcq.loader.afterClosedCheck ; B=take! ; C=close ; I>bcq.loader.afterClosedCheck ; B> ; A=offer:9 ; A=getch")
 	// ---- coroutines (the target G finishes = `ret`)
 	e("cor: A=yf:5@cor.closesafe.beforeLock ; G=ret ; A> ; A=isdone")
 	e("cor: G=ret@cor.close.afterFlag ; A=yf:5 ; A=isdone ; G> ; B=yf:6")
 	e("cor: A=yf:5@cor.yieldfrom.beforeResult ; G=yr:9@cor.yieldref.afterRecv ; G> ; A> ; G=ret ; A=yf:6 ; A=isdone")
 	e("cor: A=yf:5@cor.yieldfrom.beforeResult ; B=yf:6@cor.yieldfrom.beforeResult ; G=yr:9 ; G=yr:8 ; A> ; B> ; G=ret ; A=yf:7")
 	e("cor: A=yf:5@cor.closesafe.beforeLock ; B=yf:6@cor.closesafe.beforeLock ; G=ret@cor.close.afterFlag ; A> ; G> ; B>")
+	// the window of the property: a caller past the done-check, parked before the send and holding the target's
+	// closedM, while the target finishes.  The caller's select has two ready cases (room in opCh / doneCh closed) and
+	// Go picks one at random, so the schedule is repeated: a close() that closes opCh outside the lock is hit with
+	// probability 1/2 per line.
+	for x := 1; x <= 6; x++ {
+		e(fmt.Sprintf("cor: A=yf:%d@cor.receive.beforeSend ; G=ret@cor.close.afterFlag ; G>! ; A> ; G>", x))
+	}
+	// accepted-but-unserved request when the target finishes; a served one in between
+	e("cor: A=yf:5@cor.yieldfrom.beforeResult ; G=ret ; A> ; B=yf:6 ; B=isdone")
+	e("cor: A=yf:5@cor.yieldfrom.beforeResult ; B=yf:6@cor.yieldfrom.beforeResult ; G=yr:9 ; G=ret ; A> ; B>")
+	// opCh (capacity 5) full: the sixth caller blocks in the send holding closedM; the finishing target must get it out
+	e("cor: A=yf:1@cor.yieldfrom.beforeResult ; B=yf:2@cor.yieldfrom.beforeResult ; D=yf:3@cor.yieldfrom.beforeResult ; E=yf:4@cor.yieldfrom.beforeResult ; F=yf:5@cor.yieldfrom.beforeResult ; H=yf:6! ; J=yf:7! ; G=ret ; H> ; J> ; A> ; B> ; D> ; E> ; F> ; K=yf:8 ; K=isdone")
 	// ---- worker pool
 	for _, qc := range []int{1, 0} {
 		h := fmt.Sprintf("pool c=4 b=4 max=1 qclose=%d: ", qc)
@@ -72,7 +95,12 @@ func c15Directed(e func(string)) {
 		e(h + "C=close@pool.close.afterFlag ; A=sched:1 ; C> ; A=sched:2")
 		e(h + "I+pool.worker.afterClosedCheck ; I?pool.worker.afterClosedCheck ; C=close ; I>pool.worker.afterClosedCheck ; A=sched:1")
 		e(h + "A=sched:1 ; A=sched:201 ; A=sched:2 ; C=close ; A=sched:3")
+		// Close while the worker is inside a job (released by `gate` afterwards), one more job queued
+		e(h + "A=sched:100 ; A=sched:2 ; C=close ; A=sched:3 ; A=isclosed ; gate")
 	}
+	// the worker parked inside GetChannel()'s notifyWorkers (read lock held, before the wake-up send): the queue's
+	// Close has to wait for it
+	e("pool c=4 b=4 max=1 qclose=1: I+bcq.notify.beforeSend ; I?bcq.notify.beforeSend ; C=close! ; I>bcq.notify.beforeSend ; C> ; A=sched:1")
 	e("pool c=4 b=4 max=1 qclose=1: I+pool.worker.afterClosedCheck ; I?pool.worker.afterClosedCheck ; C=close@bcq.close.afterFlag ; I>pool.worker.afterClosedCheck ; A=sched:1 ; C>")
 	e("pool c=4 b=4 max=1 qclose=1: I+pool.worker.afterClosedCheck ; I?pool.worker.afterClosedCheck ; C=close@bcq.close.afterLoadCh ; I>pool.worker.afterClosedCheck ; C>")
 	e("pool c=4 b=4 max=1 qclose=1: A=sched:1@pool.schedule.afterClosedCheck ; C=close@bcq.close.afterFlag ; A>! ; C> ; A>")
